@@ -875,6 +875,18 @@ class Scope:
 
         if functionName not in self.__functions:
             self.__functions[functionName] = []
+
+        # Two functions with the same name and parameter types are two
+        # definitions of one function, not overloads
+        parameterTypes = list(typeinfo.GetArgumentTypes().values())
+        for other in self.__functions[functionName]:
+            if list(other.GetArgumentTypes().values()) == parameterTypes:
+                raise InvalidDeclaration(
+                    "Cannot define function '{}': A function with that name and the same parameter types already exists in the current scope.".format(
+                        functionName
+                    )
+                )
+
         self.__functions[functionName].append(typeinfo)
         self.__registeredObjects.add(functionName)
 
